@@ -50,22 +50,23 @@ def run(res):
     cov["translator"] = {k: v for k, v in report.items() if k not in ("ids", "blob_types")}
     cov["translator"]["source"] = [os.path.join(lib.REPO, "vls-protocol/src/msgs.rs"),
                                    os.path.join(lib.REPO, "vls-protocol/src/model.rs")]
+    model_ok = ok
     if not ok:
         res.violation("the generated wire model (Gen/WireGen.v) no longer checks: a per-struct round trip or the "
-                      "completeness of the dispatch table failed for the current source",
+                      "completeness of the dispatch table failed for the current source"
+                      + (" (not dispatched by enum Message: %s)" % ", ".join(report["undispatched"]) if report.get("undispatched") else ""),
                       {"generated": "coq/theories/Gen/WireGen.v", "undispatched": report.get("undispatched"),
                        "log": out[-3000:]}, has_input=False)
-        cov.update({"evaluations": 0, "distinct_nontrivial": 0, "rule": "generated model failed to build", "samples": [],
-                    "obligations": 1, "discharged": 0})
-        return
-    # 2. the property theorems over the regenerated model
-    proved = lib.proof_stage(res, "C19.v", "Props.C19", PINNED)
+        cov.update({"obligations": 1, "discharged": 0})
+    else:
+        # 2. the property theorems over the regenerated model
+        proved = lib.proof_stage(res, "C19.v", "Props.C19", PINNED)
+        if not proved and report.get("duplicate_ids"):
+            # say what the failing obligation is about (the violation itself was recorded by proof_stage)
+            cov["failing_obligation"] = {"theorem": "C19_ids_unique", "duplicate_ids": report["duplicate_ids"]}
     cov["trusted_base"] = cov.get("trusted_base", []) + [
         "tools/gen_wire.py (translator; regenerated model re-proved on every run)",
         "rust-bitcoin / txoo encodings of Transaction, PSBT, TxoProof (premise blob_laws)"]
-    if not proved and report.get("duplicate_ids"):
-        # say what the failing obligation is about (the violation itself was recorded by proof_stage)
-        cov["failing_obligation"] = {"theorem": "C19_ids_unique", "duplicate_ids": report["duplicate_ids"]}
 
     # 3. correspondence + monitors on the real code
     n_rand = 2 if quick else 12
@@ -76,10 +77,12 @@ def run(res):
     psbt = lib.run_harness("wire", "psbt", res.seed, n_psbt, res.tier)
     cases, mals, psbts, wps = msgs["CASE"], mal["MAL"], psbt["PSBT"], psbt["WP"]
     imports = ["Model.WireCheck"]
-    f_wire = lib.coq_failures(imports, "wire_case", "check_wire", [c["coq"] for c in cases], "c19_wire")
-    f_mal = lib.coq_failures(imports, "mal_case", "check_mal", [c["coq"] for c in mals], "c19_mal")
-    f_psbt = lib.coq_failures(imports, "psbt_case", "check_psbt", [c["coq"] for c in psbts], "c19_psbt")
-    f_wp = lib.coq_failures(imports, "wp_case", "check_wp", [c["coq"] for c in wps], "c19_wp")
+    f_wire = f_mal = f_psbt = f_wp = []
+    if model_ok:   # (without a model only the monitors below run)
+        f_wire = lib.coq_failures(imports, "wire_case", "check_wire", [c["coq"] for c in cases], "c19_wire")
+        f_mal = lib.coq_failures(imports, "mal_case", "check_mal", [c["coq"] for c in mals], "c19_mal")
+        f_psbt = lib.coq_failures(imports, "psbt_case", "check_psbt", [c["coq"] for c in psbts], "c19_psbt")
+        f_wp = lib.coq_failures(imports, "wp_case", "check_wp", [c["coq"] for c in wps], "c19_wp")
 
     # the property itself on the implementation's answers
     mon = [c for c in cases if c["monitor_violation"]]
